@@ -81,7 +81,7 @@ var dynKinds = []string{"nil", "bool", "string", "int", "int8", "int64", "uint8"
 // dynamic pool types (fold side): implemented folders — incl. named containers
 // of builtin elements, which the library also knows a conversion fast path for —
 // the registered folder and plain named containers
-var dynPool = []string{"FolderObj", "FolderPtr", "FolderScalar", "RegT", "FTags", "FCounts", "FAnyMap", "FAnyList", "NMapInt", "NMapAny", "NSliceStr", "NSliceAny", "NBytes", "ZeroVal", "NArr3", "NArrStr", "NSliceN", "NMapN", "NUint64", "NInt16"}
+var dynPool = []string{"FolderObj", "FolderPtr", "FolderScalar", "RegT", "FTags", "FCounts", "FAnyMap", "FAnyList", "NMapInt", "NMapAny", "NSliceStr", "NSliceAny", "NBytes", "ZeroVal", "NArr3", "NArrStr", "NSliceN", "NMapN", "NUint64", "NInt16", "FLevel", "FFlag", "RDur"}
 
 // dynamic types that fold to an object (what an inlined interface must hold)
 var dynObjKinds = []string{"map_iface", "map_string", "struct", "map_scalar", "gen_struct", "gen_struct", "pool:FolderObj", "pool:FCounts", "pool:NMapAny", "ptr_struct"}
@@ -129,7 +129,7 @@ func (g *valGen) dynTypeOf(t *rapid.T, k string, depth int) *TypeDesc {
 		return &td
 	}
 	if strings.HasPrefix(k, "pool:") {
-		if strings.HasSuffix(k, "FolderPtr") || strings.HasSuffix(k, "RegT") {
+		if strings.HasSuffix(k, "FolderPtr") || strings.HasSuffix(k, "RegT") || strings.HasSuffix(k, "FFlag") || strings.HasSuffix(k, "RDur") {
 			// pointer receiver / registered for the pointer type
 			return &TypeDesc{Kind: "ptr", Elem: &TypeDesc{Kind: "pool", Pool: k[5:]}}
 		}
@@ -362,6 +362,70 @@ func uniqueMemberNames(td *TypeDesc, seen map[string]bool, n *int) {
 		seen[name] = true
 		uniqueMemberNames(&f.Type, map[string]bool{}, n)
 	}
+}
+
+// SampleValue is a fixed non-trivial value of the type: numbers 1, 2, ...,
+// strings "s1", ..., slices of two elements, maps with the keys "k" and "",
+// allocated pointers, interfaces holding an int. Deterministic (enumerations).
+func SampleValue(typ reflect.Type) GoVal {
+	n := 0
+	return sampleValue(typ, &n, 0)
+}
+
+func sampleValue(typ reflect.Type, n *int, depth int) GoVal {
+	*n++
+	switch typ.Kind() {
+	case reflect.Bool:
+		return GoVal{B: *n%2 == 1}
+	case reflect.String:
+		return GoVal{S: []byte(fmt.Sprintf("s%d", *n))}
+	case reflect.Int, reflect.Int8, reflect.Int16, reflect.Int32, reflect.Int64:
+		return GoVal{I: int64(*n)}
+	case reflect.Uint, reflect.Uint8, reflect.Uint16, reflect.Uint32, reflect.Uint64, reflect.Uintptr:
+		return GoVal{U: uint64(*n)}
+	case reflect.Float32:
+		return GoVal{F: uint64(math.Float32bits(float32(*n) + 0.5))}
+	case reflect.Float64:
+		return GoVal{F: math.Float64bits(float64(*n) + 0.25)}
+	case reflect.Ptr:
+		if depth > 6 {
+			return GoVal{Nil: true}
+		}
+		v := sampleValue(typ.Elem(), n, depth+1)
+		return GoVal{Ptr: &v}
+	case reflect.Interface:
+		v := GoVal{I: int64(*n)}
+		return GoVal{Ptr: &v, Dyn: &TypeDesc{Kind: "int"}}
+	case reflect.Slice, reflect.Array:
+		if depth > 6 {
+			return GoVal{Nil: typ.Kind() == reflect.Slice}
+		}
+		l := 2
+		if typ.Kind() == reflect.Array {
+			l = typ.Len()
+		}
+		out := GoVal{Elems: []GoVal{}}
+		for i := 0; i < l; i++ {
+			out.Elems = append(out.Elems, sampleValue(typ.Elem(), n, depth+1))
+		}
+		return out
+	case reflect.Map:
+		if depth > 6 || typ.Key().Kind() != reflect.String {
+			return GoVal{Nil: true}
+		}
+		return GoVal{Keys: []string{"k", ""}, Elems: []GoVal{sampleValue(typ.Elem(), n, depth+1), sampleValue(typ.Elem(), n, depth+1)}}
+	case reflect.Struct:
+		out := GoVal{}
+		for i := 0; i < typ.NumField(); i++ {
+			if depth > 6 {
+				out.Elems = append(out.Elems, GoVal{Nil: true})
+				continue
+			}
+			out.Elems = append(out.Elems, sampleValue(typ.Field(i).Type, n, depth+1))
+		}
+		return out
+	}
+	return GoVal{Nil: true}
 }
 
 // Materialize builds the described value as an addressable reflect.Value of typ.
